@@ -143,6 +143,41 @@ func configure(g *gen) {
 			{Callee: "strings.NewReplacer(rawVar...).Replace", Value: "(replacer rawVar %1)", T: tStr},
 			{Callee: "strings.NewReplacer(varRegex...).Replace", Value: "(replacer varRegex %1)", T: tStr},
 		}})
+	// router.go: Resource — the REST table.  The controller is what `reflect` shows of it (`GoRt.Ctrl`), the router is
+	// the list of registration calls made on it (`GoRt.ResEv`); the closure handed to `Group` is translated in place
+	// between the two group events; the action table `RESTFulActions` (a map) is the list of its pairs `actions`, visited
+	// in the order `ord`
+	kvh := T{"opaque", "List (Bytes × List Nat)"}
+	add(FnSpec{Recv: "Router", Func: "Resource", Lean: "Router.Resource", NoRecv: true, Hoist: true,
+		Extra: []string{"(an : GoRt.ActNames)", "(actions : List (Bytes × List Bytes))", "(ord : List (Bytes × List Bytes) → List (Bytes × List Bytes))"},
+		Prologue: []string{"let mut ev : List GoRt.ResEv := []"}, RetExtra: []string{"ev"}, RetExtraT: []string{"List GoRt.ResEv"},
+		MapOrder: "ord",
+		Types: map[string]T{"any": {"opaque", "GoRt.Ctrl"}, "reflect.Value": {"opaque", "GoRt.Ctrl"}, "reflect.Type": {"opaque", "GoRt.Ctrl"},
+			"map[string][]rux.HandlerFunc": kvh, "map[string][]string": {"opaque", "List (Bytes × List Bytes)"},
+			"[]rux.HandlerFunc": {"opaque", "List Nat"}, "*rux.Route": {"opaque", "Unit"}, "func(*rux.Context)": {"opaque", "Unit"},
+			"func() map[string][]rux.HandlerFunc": {"opaque", "Option (List (Bytes × List Nat))"}},
+		Exts: []Ext{
+			{Callee: "reflect.ValueOf", Value: "%1", T: T{"opaque", "GoRt.Ctrl"}},
+			{Callee: "cv.Type", Value: "cv", T: T{"opaque", "GoRt.Ctrl"}},
+			{Callee: "cv.Kind", Value: "cv.kind", T: tInt},
+			{Callee: "cv.Elem().Type().Kind", Value: "cv.elemKind", T: tInt},
+			{Callee: "ct.Elem().Name", Value: "ct.typeName", T: tStr},
+			{Callee: "make(map[string][]HandlerFunc)", Value: "[]", T: kvh},
+			{Callee: "cv.MethodByName", Value: "(cv.method %1)", T: T{"opaque", "GoRt.CMeth"}},
+			{Callee: "_.IsValid", Value: "(%1).valid", T: tBool},
+			{Callee: "_.Interface().(func() map[string][]HandlerFunc)", Values: []string{"(%1).uses", "(%1).uses.isSome"}, Ts: []T{{"opaque", "Option (List (Bytes × List Nat))"}, tBool}},
+			{Callee: "uses", Value: "(uses.getD [])", T: kvh},
+			{Callee: "_.Interface().(func(*Context))", Values: []string{"()", "(%1).isAction"}, Ts: []T{{"opaque", "Unit"}, tBool}},
+			{Callee: "RESTFulActions", Value: "actions", T: T{"opaque", "List (Bytes × List Bytes)"}},
+			{Callee: "IndexAction", Value: "an.index", T: tStr}, {Callee: "CreateAction", Value: "an.create", T: tStr},
+			{Callee: "StoreAction", Value: "an.store", T: tStr}, {Callee: "ShowAction", Value: "an.show_", T: tStr},
+			{Callee: "EditAction", Value: "an.edit", T: tStr}, {Callee: "UpdateAction", Value: "an.update", T: tStr},
+			{Callee: "DeleteAction", Value: "an.delete", T: tStr},
+			{Callee: "$.Group", InlineArg: 2, Stmts: []string{"ev := ev ++ [GoRt.ResEv.groupEnter %1 %3]"}, After: []string{"ev := ev ++ [GoRt.ResEv.groupLeave]"}},
+			{Callee: "$.AddNamed", Stmts: []string{"ev := ev ++ [GoRt.ResEv.addNamed %1 %2 %4]"}, Value: "()", T: T{"opaque", "Unit"}},
+			{Callee: "handlerFuncs[]", Values: []string{"(GoRt.kvhGet handlerFuncs %1).1", "(GoRt.kvhGet handlerFuncs %1).2"}, Ts: []T{{"opaque", "List Nat"}, tBool}},
+			{Callee: "route.Use", Stmts: []string{"ev := ev ++ [GoRt.ResEv.use routeName %1]"}},
+		}})
 	// route.go: the constructors and the naming API.  The router's name index is an association list (first binding
 	// = the live one)
 	add(FnSpec{Func: "NewRoute", Lean: "NewRoute", UseStructs: []string{"Route"}, Types: map[string]T{"rux.HandlerFunc": {"opaque", "Option Nat"}}})
